@@ -147,3 +147,7 @@ void *_ZSt18_Rb_tree_decrementPSt18_Rb_tree_node_base(void *xv) {
   rbn *y = x->parent; while (x == y->left) { x = y; y = y->parent; } return y;
 }
 u32 __cxa_atexit(void *f, void *a, void *d) { return 0; }
+
+/* harness API */
+u8 vp_false(void) { return 0; }
+void vp_note(void *tag, u64 v) { }
